@@ -72,6 +72,8 @@ class Project(object):
     def check_changes(self):
         # type: () -> t.Iterator[None]
         self._context_cache.clear()
+        # which directories are packages may have changed as well
+        self._norm_cache.clear()
         yield
 
     def get_nmodule(self, name, filename):
